@@ -155,6 +155,21 @@ def gen(rng, n, exhaustive_upto):
                     T = rng.choice(Ts); rep = rng.choice(reps); dt = rng.choice([F(1), F(1, 2)])
                     spec = feeder_spec([parent], sw, T)
                     cases.append(make_case(spec, {str(rng.randint(1, 3)): [[f"F0L{fl}", str(rep)]]}, dt, f"one-feeder-sw{sw}"))
+    for j in range(max(4, n // 10)):
+        # targeted: two non-overlapping contingencies on different lines of the same section (lines without disconnectors, or
+        # disconnectors at the upstream end only with a switch-less tail), sectioning time of at least two steps
+        nl = rng.randint(3, 5)
+        parent = [-1] + [rng.randint(0, i - 1) for i in range(1, nl)]
+        sw = rng.choice([0, 0, 1])
+        dt = rng.choice([F(1, 2), F(1, 4)]); T = rng.choice([F(1), F(3, 2)])
+        spec = feeder_spec([parent], sw, T)
+        if sw == 1:          # make the last two lines switch-less so that they share the section of their upstream line
+            fd = spec["feeders"][0]
+            fd["sw"][-1] = 0; fd["sw"][-2] = 0 if nl > 3 else fd["sw"][-2]
+        a, b = rng.sample(range(1, nl), 2) if sw == 0 else (nl - 1, parent[nl - 1] if parent[nl - 1] > 0 else nl - 2)
+        k1 = rng.randint(1, 3)
+        k2 = k1 + int((T + F(5, 2)) / dt) + int(T / dt) + 6
+        cases.append(make_case(spec, {str(k1): [[f"F0L{a}", str(rng.choice(reps))]], str(k2): [[f"F0L{b}", str(rng.choice(reps))]]}, dt, f"same-section-pair-sw{sw}"))
     for _ in range(n):
         nfeed = rng.choice([1, 2, 2, 2])
         parents = []
